@@ -124,6 +124,21 @@ def run_ob(tr):
     if st_c != st:
         key = [k for k in st if st[k] != st_c[k]][0]
         fail("python/orderbook/observation-changes-behaviour/%s" % key, "calls %r: with every getter read between the calls %s = %r, without any read in between %r" % (calls, key, st[key], st_c[key]), tr)
+    # ... and with exactly ONE look, before call j, for every j (what a cache refreshed by every
+    # look and untouched without any look would hide)
+    if not tr.get("bulk"):
+        for j in range(1, len(calls)):
+            ob_1 = core.OrderBook(0, tr["tick"]) if tr.get("trading", True) else core.OrderBook(0, tr["tick"], trading=False)
+            clock_1 = [0]
+            for k, c in enumerate(calls):
+                if k == j:
+                    ob_state(ob_1)
+                ob_call(ob_1, clock_1, k, c)
+            st_1 = ob_state(ob_1)
+            if st_1 != st:
+                key = [k for k in st if st[k] != st_1[k]][0]
+                fail("python/orderbook/observation-changes-behaviour/%s" % key, "calls %r: with one look before call %d %s = %r, with a look between all calls %r" % (calls, j, key, st_1[key], st[key]), tr)
+                break
     for key, want in exp["state"].items():
         if st[key] != want:
             fail("python/orderbook/getter/%s" % key, "after %r: %s = %r, Rust core %r" % (calls[-1], key, st[key], want), tr)
@@ -220,7 +235,7 @@ def env_call(env, c):
         return None, type(e).__name__
 
 
-def replay_env(tr, observe=True):
+def replay_env(tr, observe=True, only_before=None):
     env = core.StepEnv(tr["seed"], tr.get("start", 0), tr["tick"], tr["step_size"]) if tr.get("trading", True) else core.StepEnv(tr["seed"], tr.get("start", 0), tr["tick"], tr["step_size"], False)
     calls = tr["calls"]
     before = None
@@ -228,7 +243,7 @@ def replay_env(tr, observe=True):
     for k, c in enumerate(calls):
         # every getter is called between any two calls (a binding that caches must survive that);
         # with observe=False nothing is read until the end
-        if observe and not tr.get("bulk"):
+        if observe and not tr.get("bulk") and (only_before is None or only_before == k):
             before = env_state(env)
             if observe == "arrays":
                 env.level_1_data_array(), env.level_2_data_array(), env.get_market_data()
@@ -266,6 +281,15 @@ def run_env_c18(tr):
     if st3 != st:
         key = [k for k in st if st[k] != st3[k]][0]
         fail("python/stepenv/observation-changes-behaviour/%s" % key, "calls %r: with every getter read between the calls %s = %r, without any read in between %r" % (calls, key, st[key], st3[key]), tr)
+    # ... and a replay with exactly one look, before call j, for every j
+    if not tr.get("bulk"):
+        for j in range(1, len(calls)):
+            env4, _, _, _ = replay_env(tr, observe=True, only_before=j)
+            st4 = env_state(env4)
+            if st4 != st:
+                key = [k for k in st if st[k] != st4[k]][0]
+                fail("python/stepenv/observation-changes-behaviour/%s" % key, "calls %r: with one look before call %d %s = %r, with a look between all calls %r" % (calls, j, key, st4[key], st[key]), tr)
+                break
     # drain probe through two more steps
     if exp.get("drain") is None:
         return
